@@ -39,7 +39,9 @@ fn vectors() -> Vec<Vector> {
         (CSharp, "global::System.BitConverter.DoubleToInt64Bits(x)", Ty::F64, 0x7ff4_0000_0000_0001, ok(I64, 0x7ff4_0000_0000_0001)),
         (CSharp, "global::System.BitConverter.Int64BitsToDouble(x)", I32, 0xffff_ffff, ok(Ty::F64, u64::MAX)),
         (CSharp, "global::System.BitConverter.Int32BitsToSingle(x)", I64, 0, Err(())),
-        (CSharp, "(float)x", I32, 0, Err(())),
+        (CSharp, "(float)x", I32, 3, ok(Ty::F32, 0x4040_0000)),
+        (CSharp, "(uint)x", Ty::F32, 0x3fc0_0000, ok(U32, 1)),
+        (CSharp, "(uint)x", Ty::F32, 0xbfc0_0000, Ok(None)),
         (CSharp, "x.Foo()", I32, 0, Err(())),
         // ---------------- Go
         (Go, "int8(x)", I32, 0x80, ok(I8, 0x80)),
@@ -66,6 +68,8 @@ fn vectors() -> Vec<Vector> {
         (Go, "x + 300", I8, 0, Err(())),
         (Go, "int8(x) + x", I32, 0, Err(())),
         (Go, "bool(x)", I32, 0, Err(())),
+        (Go, "uint32(x)", Ty::F32, 0x3fc0_0000, ok(U32, 1)),
+        (Go, "int64(x)", Ty::F64, 0x7ff8_0000_0000_0000, Ok(None)),
         // ---------------- MoonBit
         (MoonBit, "(x).to_byte()", I32, 0x1ff, ok(U8, 0xff)),
         (MoonBit, "(x).to_int()", U8, 0xff, ok(I32, 0xff)),
@@ -109,7 +113,8 @@ fn vectors() -> Vec<Vector> {
         (D, "cast(size_t)(x)", U64, 0x1_0000_0007, ok(U32, 7)),
         (D, "x + 1", I8, 0x7f, ok(I32, 128)),
         (D, "x < 1", U32, 0xffff_ffff, ok(Ty::Bool, 0)),
-        (D, "cast(float)(x)", U32, 0, Err(())),
+        (D, "cast(float)(x)", U32, 0x0100_0001, ok(Ty::F32, 0x4b80_0000)),
+        (D, "cast(int)(x)", Ty::F32, 0xc0a0_0000, ok(I32, 0xffff_fffb)),
         (D, "x & 1 == 0", U32, 0, Err(())),
     ]
 }
